@@ -55,6 +55,8 @@ pub const PROGRAMS: &[&str] = &[
     "[1, 2, 3 + 'x']",
     "min(100, 200, ! 5) ; sum(1, 2)",
     "mul(2, 3) + sum(4, 5) + max(6, 7) ; [8, 9]",
+    // names that differ in letter case only are different names (and an unbound one reads as None)
+    "Total = 1 ; total = 2 ; [TOTAL, Total, total, X, x]",
 ];
 
 /// programs used in the histories that contain a registration
